@@ -27,7 +27,8 @@ abbrev History := List (Env × Msg)
 def runAll (cfg : Nat → Option Product) (s : State) (h : History) : State :=
   h.foldl (fun s em => apply cfg s em.1 em.2) s
 
-def UsersOk (h : History) : Prop := ∀ em ∈ h, em.2.userOk
+/-- messages are signed by users, and the history contains no auction settlement (see `totals_after_settlement`) -/
+def UsersOk (h : History) : Prop := ∀ em ∈ h, em.2.userOk ∧ em.2.notSettle
 
 theorem init_inv (cfg : Nat → Option Product) (hc : CfgOk cfg) : Inv cfg State.init := by
   refine ⟨⟨by simp [State.init], by simp [State.init], by simp [State.init], by simp [State.init],
@@ -39,11 +40,11 @@ theorem init_inv (cfg : Nat → Option Product) (hc : CfgOk cfg) : Inv cfg State
   · intro k p hp; simp only [State.init]; exact (hc k p hp).2.2.2.2.2.2.2
 
 theorem apply_inv (cfg : Nat → Option Product) (hc : CfgOk cfg) (s : State) (e : Env) (m : Msg) (hm : m.userOk)
-    (hinv : Inv cfg s) : Inv cfg (apply cfg s e m) := by
+    (hns : m.notSettle) (hinv : Inv cfg s) : Inv cfg (apply cfg s e m) := by
   unfold apply
   cases h : step cfg s e m with
   | none => simpa using hinv
-  | some s' => simpa using step_inv cfg hc s s' e m hm hinv h
+  | some s' => simpa using step_inv cfg hc s s' e m hm hns hinv h
 
 /-- the ledger invariant holds after every history -/
 theorem inv_always (cfg : Nat → Option Product) (hc : CfgOk cfg) (h : History) (hu : UsersOk h) (s : State)
@@ -52,7 +53,7 @@ theorem inv_always (cfg : Nat → Option Product) (hc : CfgOk cfg) (h : History)
   | nil => exact hinv
   | cons em t ih =>
     simp only [runAll, List.foldl_cons]
-    exact ih (fun x hx => hu x (by simp [hx])) _ (apply_inv cfg hc s em.1 em.2 (hu em (by simp)) hinv)
+    exact ih (fun x hx => hu x (by simp [hx])) _ (apply_inv cfg hc s em.1 em.2 (hu em (by simp)).1 (hu em (by simp)).2 hinv)
 
 /-- **Custody**: vault-module balance of every denom = collateral recorded on open + stable-mint vaults of that
 denom + coins sent there unsolicited. -/
@@ -79,6 +80,40 @@ theorem rejected_no_change (cfg : Nat → Option Product) (s : State) (e : Env) 
     (h : step cfg s e m = none) : apply cfg s e m = s := by
   simp [apply, h]
 
+/-- **Auction settlement (finding D13).** When the auction of a seized vault closes, the code reduces the product's
+tokens-minted total by `TargetDebt − penalty` = principal + interest + closing fee instead of the principal that was
+added when the vault was opened. In the model: from a state satisfying the invariant, `settle` keeps the collateral
+total exact and leaves the minted total BELOW the recorded principal by exactly the interest and closing fee of the
+seized vault. Hence the totals clause is proved for histories without settlement (`totals_eq`, partial) and is false
+after a settlement of a vault that had accrued interest or a closing fee (`totals_eq_settlement_counterexample`). -/
+theorem totals_after_settlement (cfg : Nat → Option Product) (s s' : State) (vaultId : Nat) (l : LockedRec)
+    (hinv : Inv cfg s) (hnd : (s.locked.map (·.vaultId)).Nodup) (hl : l ∈ s.locked) (hid : l.vaultId = vaultId)
+    (h : settle s vaultId = some s') :
+    s'.coll l.product = collOfProduct s' l.product ∧
+    s'.minted l.product = mintedOfProduct s' l.product - (l.debt - l.amountOut) := by
+  unfold settle at h
+  cases hf : s.locked.find? (fun x => decide (x.vaultId = vaultId)) with
+  | none => simp [hf] at h
+  | some l0 =>
+    simp only [hf] at h
+    cases h
+    obtain ⟨hm0, hid0⟩ := find_mem (·.vaultId) s.locked vaultId l0 hf
+    have : l0 = l := eq_of_nodup_map (·.vaultId) s.locked hnd l0 l hm0 hl (by rw [hid0, hid])
+    subst this
+    have ht := hinv.2.2.2.1 l0.product
+    obtain ⟨hc, hmi⟩ := ht
+    have hdel : s.locked.filter (fun x => decide (x.vaultId ≠ vaultId)) = delBy (·.vaultId) s.locked l0.vaultId := by
+      simp [delBy, hid0]
+    constructor
+    · simp only [collOfProduct, upd1, hdel, if_true]
+      rw [sumBy_delBy (·.vaultId) _ s.locked l0 hnd hm0]
+      simp only [collOfProduct] at hc
+      simp; omega
+    · simp only [mintedOfProduct, upd1, hdel, if_true]
+      rw [sumBy_delBy (·.vaultId) _ s.locked l0 hnd hm0]
+      simp only [mintedOfProduct] at hmi
+      simp; omega
+
 /-! ### Non-vacuity: a concrete configuration and history that satisfies the hypotheses and exercises the clauses -/
 def demoProduct : Product :=
   { id := 1, app := 1, denomIn := 1, denomOut := 3, decIn := 1000000, decOut := 1000000,
@@ -98,7 +133,12 @@ example : CfgOk demoCfg := by
   · cases h
 example : UsersOk demoHistory := by
   intro em h; simp [demoHistory] at h
-  rcases h with rfl | rfl | rfl | rfl | rfl <;> simp [Msg.userOk, vm]
+  rcases h with rfl | rfl | rfl | rfl | rfl <;> simp [Msg.userOk, Msg.notSettle, vm]
+/-- the totals clause fails after a real-shaped history: create, interest accrues, seizure, auction closes -/
+theorem totals_eq_settlement_counterexample :
+    let s := runAll demoCfg State.init (demoHistory ++ [(demoEnv, .settle 1)])
+    s.vaults = [] ∧ s.locked = [] ∧ mintedOfProduct s 1 = 0 ∧ s.minted 1 = -5 := by decide
+
 example : (runAll demoCfg State.init demoHistory).locked.length = 1 ∧
     (runAll demoCfg State.init demoHistory).bal vm 1 = 7 ∧
     (runAll demoCfg State.init demoHistory).coll 1 = 3001000 := by decide
